@@ -221,10 +221,13 @@ def run(ctx: Ctx, tier: str) -> Result:
                    "`type(v).__name__ in ['frozenset','set','list','tuple']` is accepted as pinning the builtin containers "
                    "(a user class with one of these names would defeat it)"]
     res.assumptions = ["str ==/!= between variable names cannot raise"]
-    res.not_decided = ["whether protobuf can encode the collected text (lone surrogates): depends on runtime string content",
+    res.not_decided = ["text that does not come from values: file / function names of code objects, attribute values supplied by plugins",
                        "what the placeholder text looks like"]
     res.rule("C06.TOTAL", "every operation on a host value is pinned by type or locally guarded")
     res.rule("C06.INDEP", "snapshot table and identity cache are created per action; one cache per action")
+    res.rule("C06.TEXT", "text derived from program values is made encodable where it is produced (a string that is not valid UTF-8 text does not cost the snapshot)")
+    from . import text_rule
+    text_rule.check(ctx, res, "C06.TEXT")
     p, t, g = ctx.prog, ctx.types, ctx.guards
     entries = [(f, f.params[3]) for f, _, _ in settrace_entries(ctx) if len(f.params) > 3]
     tn = Taint(p, t, entries)
